@@ -225,9 +225,15 @@ X4_EXCEPTIONS = {
     "ABTI_mutex_unlock_no_recursion": "releases the mutex word its caller holds by contract (C04.R1)",
     "ABTI_ythread_callback_suspend_unlock": "releases the lock handed over by ABTI_ythread_suspend_unlock (summary checked by X3)",
 }
+DESTROY_AFTER_LOCK = {
+    "ABT_barrier_free": ("ABTI_barrier", "lock"), "ABT_eventual_free": ("ABTI_eventual", "lock"),
+    "ABT_future_free": ("ABTI_future", "lock"), "ABTI_cond_fini": ("ABTI_cond", "lock"),
+    "ABTI_mutex_fini": ("ABTI_mutex", "waiter_lock"),
+}
 X4_DOC = ("repository-wide lock balance: every function that uses a lock primitive returns with the lockset it was entered "
           "with and never re-acquires a held lock or releases one it does not hold (named exceptions: destroy-after-lock, "
-          "the mutex word itself, the hand-over callback)")
+          "the mutex word itself, the hand-over callback); destructors still take the object's lock before releasing it, and a "
+          "lock-for-good helper is only called where the object is freed on every path after it")
 
 
 def rule_X4(P, rep):
@@ -257,6 +263,34 @@ def rule_X4(P, rep):
         rep.ob("X4", "%s: locks balanced on every path" % F.name, not why, "; ".join(why)[:500],
                loc="%s:%d" % (F.file, F.line), site="X4/" + F.name)
     rep.need(n >= 40, "only %d functions using lock primitives were analysed" % n)
+    # destroy-after-lock: the destructor takes the object's lock (a concurrent holder, e.g. the last arriver of a
+    # barrier that is still waking the others, has left when the memory is released) ...
+    for name, fld in sorted(DESTROY_AFTER_LOCK.items()):
+        Fs = [F for F in P.fns(name) if F.blocks]
+        if not Fs:
+            continue
+        F = Fs[0]
+        rec = P.records.get(fld[0])
+        if rec is None or not any(x["n"] == fld[1] for x in rec["fields"]):
+            continue            # this configuration has no such lock (e.g. the simple mutex has no waiter list)
+        acq = [i for _b, i in F.calls(set(tables.LOCK_ACQUIRE)) if F.field_of(F.nodes[i]["a"][tables.LOCK_ACQUIRE[F.nodes[i]["fn"]]]) == fld]
+        rep.ob("X4", "%s takes %s::%s before the object is destroyed" % (name, fld[0], fld[1]), bool(acq),
+               "the object is destroyed without waiting for a concurrent holder of its lock", loc="%s:%d" % (F.file, F.line),
+               site="X4/destroy-after-lock/" + name)
+    # ... and a helper that takes a lock for good is only called where the object is released on every path after it
+    helpers = set(n for n in DESTROY_AFTER_LOCK if n.endswith("_fini"))
+    for F in sorted(P.functions.values(), key=lambda f: (f.file, f.line)):
+        if F.name in helpers or not F.blocks:
+            continue
+        calls = [i for _b, i in F.calls(helpers)]
+        if not calls:
+            continue
+        frees = [i for _b, i in F.calls("ABTU_free")]
+        for c in calls:
+            path = cfg.reach_exit_avoiding(F, c, avoid_nodes=frees) if frees else [F.block_of(c)]
+            rep.ob("X4", "%s: after %s (which keeps the lock for good) the object is released on every path" % (F.name, F.nodes[c]["fn"]),
+                   path is None, "a return is reachable after %s without ABTU_free (blocks %s): the object stays locked for ever" %
+                   (F.nodes[c]["fn"], path), loc=F.loc(c), site="X4/fini-then-free/%s" % F.name)
 
 
 X5_DOC = ("counters and generation words keep at least the width of int (a count of nested locks, readers, waiters, queued or blocked "
